@@ -34,6 +34,9 @@ pub struct RcCase {
     /// threads switch only between operations (exact model: unexpected leaks are detectable)
     #[serde(default)]
     pub atomic_ops: bool,
+    /// threads that never register a merge queue
+    #[serde(default)]
+    pub unregistered: Vec<bool>,
 }
 
 #[derive(Clone, Debug, Deserialize, Default)]
@@ -132,7 +135,64 @@ pub fn case(max_threads: usize, max_ops: usize, max_sched: usize) -> impl Strate
         .prop_map(|(threads, objects, schedule)| {
             // one case in four runs with operation-atomic scheduling
             let atomic_ops = schedule.first().map(|b| b % 4 == 0).unwrap_or(false);
-            RcCase { threads, objects, schedule, atomic_ops }
+            RcCase { threads, objects, schedule, atomic_ops, unregistered: vec![] }
+        })
+}
+
+/// Directed histories: handles migrate from the owner to a second thread and back, with the
+/// operations that matter in between (drop on the non-owner = queueing, clone on the non-owner,
+/// uniqueness tests and unwrap on the owner before / after its merge).  The schedule runs the
+/// three phases mostly in order (operation-atomic), with a few random switches.
+pub fn migration_case() -> impl Strategy<Value = RcCase> {
+    let owner_late = prop_oneof![
+        3 => any::<u8>().prop_map(Op::Drop),
+        2 => any::<u8>().prop_map(Op::GetMut),
+        2 => any::<u8>().prop_map(Op::MakeMut),
+        2 => any::<u8>().prop_map(Op::TryUnwrap),
+        1 => any::<u8>().prop_map(Op::Clone),
+        2 => Just(Op::Merge),
+        1 => any::<u8>().prop_map(Op::Read),
+    ];
+    let other = prop_oneof![
+        3 => any::<u8>().prop_map(Op::Drop),
+        3 => any::<u8>().prop_map(Op::Clone),
+        4 => any::<u8>().prop_map(|h| Op::Move(h, 0)),
+        1 => any::<u8>().prop_map(Op::GetMut),
+        1 => any::<u8>().prop_map(Op::TryUnwrap),
+        1 => Just(Op::Merge),
+    ];
+    (
+        0usize..=3,
+        1usize..=3,
+        prop::collection::vec(other, 1..7),
+        prop::collection::vec(owner_late, 1..7),
+        prop::collection::vec((any::<u8>(), 0usize..20), 0..3),
+        0u8..10,
+        any::<bool>(),
+    )
+        .prop_map(|(clones, moves, t1, late, noise, mode, unreg)| {
+            let mut t0: Vec<Op> = vec![];
+            for _ in 0..clones {
+                t0.push(Op::Clone(0));
+            }
+            let moves = moves.min(clones + 1);
+            for _ in 0..moves {
+                t0.push(Op::Move(0, 1));
+            }
+            let phase1 = t0.len();
+            t0.extend(late.clone());
+            let mut schedule: Vec<u8> = vec![];
+            schedule.extend(std::iter::repeat(0u8).take(phase1));
+            schedule.extend(std::iter::repeat(255u8).take(t1.len()));
+            schedule.extend(std::iter::repeat(0u8).take(late.len() + 2));
+            for (b, pos) in noise {
+                if pos < schedule.len() {
+                    schedule[pos] = b;
+                }
+            }
+            // mostly operation-atomic so that the phases run as written; one case in ten has an
+            // owner that never registered a merge queue
+            RcCase { threads: vec![t0, t1], objects: 1, schedule, atomic_ops: mode < 7, unregistered: if mode == 9 && unreg { vec![true, false] } else { vec![] } }
         })
 }
 
@@ -221,6 +281,7 @@ pub fn run(ctx: &Ctx, replay: Option<&str>) -> i32 {
         };
     }
     replay_tier::<RcCase>(ctx, "rc", &mut |c| judge(ctx, c, "run", 0, false));
+    replay_tier::<RcCase>(ctx, "rc-migration", &mut |c| judge(ctx, c, "run", 0, false));
     let total = ctx.n(300_000, 6_000_000);
     let fails = run_prop(ctx, "rc", || case(3, 12, 160), total, |_ws, c, counting| match judge(ctx, c, "run", 0, counting) {
         Err(f) => {
@@ -239,6 +300,22 @@ pub fn run(ctx: &Ctx, replay: Option<&str>) -> i32 {
         ok => ok,
     });
     report_failures(ctx, "rc", fails);
+    let fails = run_prop(ctx, "rc-migration", migration_case, ctx.n(150_000, 3_000_000), |_ws, c, counting| match judge(ctx, c, "run", 0, counting) {
+        Err(f) => {
+            if let Some(k) = ctx.match_known(&f) {
+                if counting {
+                    ctx.note_known_hit(&k.id);
+                }
+                Ok(())
+            } else if ctx.survey_case("rc-migration", c, &f) {
+                Ok(())
+            } else {
+                Err(f)
+            }
+        }
+        ok => ok,
+    });
+    report_failures(ctx, "rc-migration", fails);
     if !ctx.quick() {
         // bounded-exhaustive part: every schedule of small histories
         let small = ctx.n(0, 3000);
